@@ -11,6 +11,11 @@
                    pS<w>     start handlePeerLost, park it in the publication of the PeerLost transition (if any)
                    rl<w>     let the parked call of w run to its end
                    (at most one parked call per node; other ops run as whole calls meanwhile)
+          two groups: first op G2:pA,rA,dA,nA,pB,rB,dB,nB = priority, preempt, decrement, #interfaces of a second
+                   group on both nodes (its interfaces are numbered 100+k).  The Manager is modelled as one
+                   instance of the model per group; d1<w>:<i> / d2<w>:<i> deliver heartbeat i with the status of
+                   group 1 / 2 only (the other instance sees ETouch); S1<w>:<f> / S2<w>:<f> complete switchover of
+                   one group; every other op acts on both.  Output: <group 1 token>#<group 2 token> per step.
    output: one token per state (initial state, then after every op):
           <A>|<B>|<transitions>   node = st,eff,peerPrio,peerState,peerKnown,downCount,isActive *)
 let rec z_of_int (i : int) : z = if i = 0 then Z0 else if i > 0 then Zpos (pos_of_int i) else Zneg (pos_of_int (-i))
@@ -70,6 +75,35 @@ let () =
                               c_preempt = (r = "1"); c_dec = z_of_int (int_of_string d);
                               c_nifs = nat_of_int (int_of_string n) } in
         let cs = (mkc ia pa ra da na, mkc ib pb rb db nb) in
+        (match ops with
+         | g2 :: ops when String.length g2 > 3 && String.sub g2 0 3 = "G2:" ->
+           (* two groups: two instances of the model *)
+           let p = Array.of_list (String.split_on_char ',' (String.sub g2 3 (String.length g2 - 3))) in
+           if Array.length p <> 8 then failwith "bad G2";
+           let cs2 = (mkc ia p.(0) p.(1) p.(2) p.(3), mkc ib p.(4) p.(5) p.(6) p.(7)) in
+           let s1 = ref (init_pair cs) and s2 = ref (init_pair cs2) in
+           let t1 = ref [] and t2 = ref [] in
+           let e1 e = let (s', t) = step v cs !s1 e in s1 := s'; t1 := !t1 @ t in
+           let e2 e = let (s', t) = step v cs2 !s2 e in s2 := s'; t2 := !t2 @ t in
+           let out = ref [show !s1 [] ^ "#" ^ show !s2 []] in
+           List.iter (fun tok ->
+             t1 := []; t2 := [];
+             if String.length tok < 3 then failwith ("bad op " ^ tok);
+             let w = who_of tok.[2] in
+             let a = arg tok in
+             (match String.sub tok 0 2 with
+              | "d1" -> e1 (EDeliver (w, nat_of_int a)); e2 (ETouch (w, nat_of_int a))
+              | "d2" -> e1 (ETouch (w, nat_of_int a)); e2 (EDeliver (w, nat_of_int a))
+              | "dn" | "de" | "up" ->
+                let d = String.sub tok 0 2 <> "up" in
+                if a < 100 then e1 (EIf (w, nat_of_int a, d)) else e2 (EIf (w, nat_of_int (a - 100), d))
+              | "S1" -> e1 (ESwLocal (w, a = 1)); e1 (ESwRemote (other w))
+              | "S2" -> e2 (ESwLocal (w, a = 1)); e2 (ESwRemote (other w))
+              | "pD" | "pL" | "pS" | "rl" -> failwith "overlap ops not supported with two groups"
+              | _ -> List.iter (fun e -> e1 e; e2 e) (events_of_token tok));
+             out := (show !s1 !t1 ^ "#" ^ show !s2 !t2) :: !out) ops;
+           print_endline (String.concat " " (List.rev !out))
+         | _ ->
         let s = ref (finit cs) in
         let out = ref [show !s.f_p []] in
         let ts = ref [] in
@@ -99,6 +133,6 @@ let () =
            | "rl" -> finish w
            | _ -> List.iter (fun e -> ignore (fe (FCoarse e))) (events_of_token tok));
           out := show !s.f_p !ts :: !out) ops;
-        print_endline (String.concat " " (List.rev !out))
+        print_endline (String.concat " " (List.rev !out)))
       with Failure m -> print_endline ("badcase " ^ m))
     | _ -> print_endline "badline") lines
